@@ -1078,7 +1078,12 @@ func ReconcileStaging(repo gitstore.Storer, signCommit bool) error {
 			return err
 		}
 
-		return rsl.NewReferenceEntry(PolicyStagingRef, policyTip).Commit(repo, signCommit)
+		if err := rsl.NewReferenceEntry(PolicyStagingRef, policyTip).Commit(repo, signCommit); err != nil {
+			// Don't leave staging ahead of its latest RSL entry
+			return repo.ResetDueToError(err, PolicyStagingRef, policyStagingTip)
+		}
+
+		return nil
 	}
 
 	// Diverged
@@ -1097,7 +1102,8 @@ func ReconcileStaging(repo gitstore.Storer, signCommit bool) error {
 		return err
 	}
 	if err := rsl.NewReferenceEntry(PolicyStagingRef, policyTip).Commit(repo, signCommit); err != nil {
-		return err
+		// Don't leave staging at a state that has no RSL entry
+		return repo.ResetDueToError(err, PolicyStagingRef, policyStagingTip)
 	}
 
 	// TODO: fix RSL entries for staging that are now orphaned
